@@ -1,5 +1,7 @@
 import CppUModel.Proofs.MockC
 import CppUModel.Proofs.MockCAligned
+import CppUModel.Proofs.MockCNodes
+import CppUModel.Proofs.MockCReporter
 /-!
 # C19 — the C mocking interface behaves like the C++ one
 
@@ -563,5 +565,177 @@ example : toCpp (.call .exp "withBoolParameters" [.tok "p", .int 2]) =
 
 example : MockC.toCValue ⟨"bool", .bool true⟩ = { tag := "MOCKVALUETYPE_BOOL", member := "boolValue", payload := .int 1 } := by decide +kernel
 example : MockC.toCValue ⟨"MyType", .tok "o3"⟩ = { tag := "MOCKVALUETYPE_OBJECT", member := "objectValue", payload := .tok "o3" } := by decide +kernel
+
+/-! ## adaptor nodes: ownership and lifetime (`comparatorList_` / `copierList_`, installComparator_c, installCopier_c,
+       removeAllComparatorsAndCopiers_c) — model `Model/MockCNodes.lean`, interpreted from the regenerated constructor
+       initialiser lists and freeing loops -/
+
+open Nodes in
+/-- the regenerated node constructors, freeing loops and list heads are the required ones (whatever the order of the two
+    loops / classes in the source): each constructor stores the old head — the argument the forwarder passes first — in
+    `next_`; each list has exactly one loop, which reads `next_`, deletes the node, advances — in this order; both heads
+    start null -/
+theorem node_tables_correct :
+    loopOf Gen.CMock.removeAllLoops "comparatorList_" = ⟨"comparatorList_", Nodes.Req.loopBody "comparatorList_"⟩ ∧
+    loopOf Gen.CMock.removeAllLoops "copierList_" = ⟨"copierList_", Nodes.Req.loopBody "copierList_"⟩ ∧
+    Gen.CMock.removeAllLoops.length = 2 ∧
+    ctorLinks (ctorOf Gen.CMock.nodeCtors "MockCFunctionComparatorNode") = true ∧
+    ctorLinks (ctorOf Gen.CMock.nodeCtors "MockCFunctionCopierNode") = true ∧
+    (Nodes.Req.listHeads.all (fun h => Gen.CMock.listHeads.contains h) = true) ∧ Gen.CMock.listHeads.length = 2 := by
+  decide +kernel
+
+open Nodes in
+/-- **Every node is accounted for, for every history** of installComparator / installCopier / removeAll through the C
+    interface (any length, any interleaving), on the current source: the nodes deleted so far together with the nodes
+    still on the two lists are exactly the nodes ever allocated, each once — no leak, no double delete — and the freeing
+    loops never touch a deleted node, never dereference null and always terminate. -/
+theorem nodes_accounted (os : List NOp) :
+    ((nrun {} os).freed ++ (nrun {} os).live).Perm (List.range (nrun {} os).fresh) ∧
+    (nrun {} os).freed.Nodup ∧ (nrun {} os).bad = false := by
+  have inv := nrun_inv os {} ninv_init
+  refine ⟨inv.account, ?_, ninv_not_bad _ inv⟩
+  have hn : ((nrun {} os).freed ++ (nrun {} os).live).Nodup := (inv.account.nodup_iff).mpr List.nodup_range
+  exact (List.nodup_append.mp hn).1
+
+open Nodes in
+/-- **removeAll frees everything**: after `removeAllComparatorsAndCopiers_c`, whatever happened before, both lists are
+    empty and every node that was on them has been deleted (in list order). -/
+theorem removeAll_frees_every_node (os : List NOp) :
+    (nrun {} (os ++ [.removeAll])).live = [] ∧
+    (nrun {} (os ++ [.removeAll])).freed =
+      ((nrun {} os).cmp.freed ++ (nrun {} os).cmp.live) ++ ((nrun {} os).cpy.freed ++ (nrun {} os).cpy.live) ∧
+    (nrun {} (os ++ [.removeAll])).cmp.chain = [] ∧ (nrun {} (os ++ [.removeAll])).cpy.chain = [] := by
+  have inv := nrun_inv os {} ninv_init
+  have inv' := nstep_inv _ .removeAll inv
+  have hl := removeAll_live _ inv
+  simp only [nrun, List.foldl_append, List.foldl_cons, List.foldl_nil] at *
+  refine ⟨hl, removeAll_freed _ inv, ?_, ?_⟩
+  · rw [inv'.cmp.chain_live]
+    have : (nstep (List.foldl nstep {} os) NOp.removeAll).cmp.live ++ (nstep (List.foldl nstep {} os) NOp.removeAll).cpy.live = [] := hl
+    exact (List.append_eq_nil_iff.mp this).1
+  · rw [inv'.cpy.chain_live]
+    have : (nstep (List.foldl nstep {} os) NOp.removeAll).cmp.live ++ (nstep (List.foldl nstep {} os) NOp.removeAll).cpy.live = [] := hl
+    exact (List.append_eq_nil_iff.mp this).2
+
+open Nodes in
+theorem disciplinedFrom_take : ∀ (os : List AOp) (d : Disc) (k : Nat), disciplinedFrom d os = true →
+    disciplinedFrom d (os.take k) = true
+  | [], _, k, _ => by simp [disciplinedFrom]
+  | _ :: _, _, 0, _ => by simp [disciplinedFrom]
+  | o :: rest, d, k + 1, h => by
+    simp only [disciplinedFrom, List.take_succ_cons] at h ⊢
+    cases hd : discStep d o with
+    | none => simp [hd] at h
+    | some d' => simp only [hd] at h ⊢; exact disciplinedFrom_take rest d' k h
+
+open Nodes in
+/-- **On the disciplined class the C layer's ownership is safe, at every point of the scenario**: if
+    `removeAllComparatorsAndCopiers` is only called on the global mock and only while no expectation made since the
+    last global `clear()` carries a typed parameter, then after every prefix of the scenario nobody (no scope's
+    repository, no expectation) points to a deleted adaptor node, and nothing went wrong in the lists. -/
+theorem disciplined_never_dangling (os : List AOp) (h : Disciplined os = true) (k : Nat) :
+    dangling (Nodes.runC {} (os.take k)) = false ∧ (Nodes.runC {} (os.take k)).nodes.bad = false := by
+  obtain ⟨d', inv⟩ := runC_inv (os.take k) {} {} winv_init (disciplinedFrom_take os {} k h)
+  exact ⟨not_dangling_of_inv _ d' inv, ninv_not_bad _ inv.nodes⟩
+
+open Nodes in
+/-- through the C++ interface the comparator / copier objects are the test's: whatever the scenario does, nobody ever
+    points to a deleted one -/
+theorem cpp_never_dangling (os : List AOp) : dangling (Nodes.runX {} os) = false :=
+  runX_not_dangling os
+
+/-- the full-strength statement about adaptor lifetime: the two interfaces leave the same pointers valid -/
+def adaptor_lifetime_same_full : Prop :=
+  ∀ os : List Nodes.AOp, Nodes.dangling (Nodes.runC {} os) = Nodes.dangling (Nodes.runX {} os)
+
+/-- `mock_c()->installComparator(..); mock_scope_c("s")->removeAllComparatorsAndCopiers();` — known finding
+    `C19:removeAll-on-scope-frees-adaptors-of-other-scopes` (`corpus/C19/finding_remove_all_on_scope_frees_global_adaptors.ops`) -/
+def witnessRemoveAllOnScope : List Nodes.AOp := [.scope "", .installComparator, .scope "s", .removeAll]
+
+/-- `mock_c()->installCopier(..); expectOneCall("f")->withOutputParameterOfTypeReturning(..);
+    mock_c()->removeAllComparatorsAndCopiers();` — the expectation still points to the deleted copier node
+    (`corpus/C19/finding_remove_all_while_expectation_holds_adaptor.ops`) -/
+def witnessRemoveAllWhileHeld : List Nodes.AOp := [.scope "", .installCopier, .expectTyped, .removeAll]
+
+theorem witness_removeAll_on_scope_dangles :
+    Nodes.dangling (Nodes.runC {} witnessRemoveAllOnScope) = true ∧ Nodes.dangling (Nodes.runX {} witnessRemoveAllOnScope) = false ∧
+    Nodes.Disciplined witnessRemoveAllOnScope = false := by decide +kernel
+
+theorem witness_removeAll_while_held_dangles :
+    Nodes.dangling (Nodes.runC {} witnessRemoveAllWhileHeld) = true ∧ Nodes.dangling (Nodes.runX {} witnessRemoveAllWhileHeld) = false ∧
+    Nodes.Disciplined witnessRemoveAllWhileHeld = false := by decide +kernel
+
+/-- the unrestricted statement is false on the current source (two findings, one root: the C layer owns the nodes in
+    one list for all scopes and deletes them while the C++ core may still point to them) -/
+theorem adaptor_lifetime_same_full_fails_known : ¬ adaptor_lifetime_same_full := by
+  intro h
+  have h1 := h witnessRemoveAllWhileHeld
+  rw [witness_removeAll_while_held_dangles.1, witness_removeAll_while_held_dangles.2.1] at h1
+  cases h1
+
+/-- ... and it holds on the disciplined class (this is the `_partial` form of the statement above) -/
+theorem adaptor_lifetime_same_partial (os : List Nodes.AOp) (h : Nodes.Disciplined os = true) :
+    Nodes.dangling (Nodes.runC {} os) = Nodes.dangling (Nodes.runX {} os) := by
+  have h1 := (disciplined_never_dangling os h os.length).1
+  rw [List.take_length] at h1
+  rw [h1, cpp_never_dangling]
+
+/-- non-vacuity: a disciplined scenario with installs in two scopes, a typed expectation, a global clear and two
+    removeAll; three nodes are allocated and all three are deleted, nothing dangles at the end -/
+def disciplinedScenario : List Nodes.AOp :=
+  [.scope "", .installComparator, .scope "s", .installCopier, .expectTyped, .scope "", .clear, .removeAll,
+   .installComparator, .removeAll]
+
+example : Nodes.Disciplined disciplinedScenario = true := by decide +kernel
+example : (Nodes.runC {} disciplinedScenario).nodes.freed = [0, 2, 1] ∧ (Nodes.runC {} disciplinedScenario).nodes.live = [] ∧
+    (Nodes.runC {} (disciplinedScenario.take 5)).refs.length = 5 := by decide +kernel
+example : (Nodes.nrun {} [.installComparator, .installCopier, .installComparator, .removeAll, .installCopier]).freed = [2, 0, 1] ∧
+    (Nodes.nrun {} [.installComparator, .installCopier, .installComparator, .removeAll, .installCopier]).live = [3] := by
+  decide +kernel
+
+/-! ## the failure reporter behind the C interface (mock_c / mock_scope_c, crashOnFailure_c, the C reporter and its
+       terminator) — model `Model/MockCReporter.lean`, interpreted from the regenerated `mockCalls`, `reporters`,
+       `terminators` -/
+
+/-- the regenerated reporter plumbing is the required one: BOTH entry functions pass `&failureReporterForC`; the C
+    reporter is the C++ reporter with the exception-free terminator; both terminators call the crash hook iff the flag
+    is set -/
+theorem reporter_tables_correct : Rep.genTables = Rep.Req.tables := by decide +kernel
+
+/-- **Every MockSupport object reached through the C interface — the global one or any scope, at any point of any
+    scenario — has the C failure reporter active**, so a failure detected there takes the same path as for `mock_c()`. -/
+theorem c_reporter_active_everywhere (os : List Rep.ROp) (s : String) (r : Rep.Rk)
+    (h : (s, r) ∈ (Rep.runC {} os).active) : r = .c := by
+  have sim := Rep.runSim os {} {} Rep.sim_init
+  rw [sim.active] at h
+  obtain ⟨p, _, hp⟩ := List.mem_map.mp h
+  exact (congrArg Prod.snd hp).symm
+
+/-- **Same failure path, for every scenario** (scope selections, crashOnFailure with any truth value on any scope,
+    failures detected by the selected scope or by an object of another scope, several tests in a row): the C run and
+    the C++ run call the crash hook at the same failures, record a failure for the same tests, and the C run never
+    leaves a failing call by an exception — always by the exception-free terminator. -/
+theorem failure_path_same (os : List Rep.ROp) :
+    (Rep.runC {} os).events.map Rep.Ev.isCrash = (Rep.runX {} os).events.map Rep.Ev.isCrash ∧
+    (Rep.runC {} os).hasFailed = (Rep.runX {} os).hasFailed ∧
+    (Rep.runC {} os).crashC = (Rep.runX {} os).crashStd ∧
+    (∀ e ∈ (Rep.runC {} os).events, e = Rep.Ev.crash ∨ e = Rep.Ev.exit .longjmp) := by
+  have sim := Rep.runSim os {} {} Rep.sim_init
+  exact ⟨sim.crashes, sim.failed, sim.flag, sim.c_exits⟩
+
+/-- non-vacuity: crashOnFailure set through the global table, the failure detected in a named scope, a second failure
+    in the same test (no second crash), switched off for the next test -/
+def reporterScenario : List Rep.ROp :=
+  [.mockGlobal, .crashOnFailure true, .mockScope "drv", .fail, .failIn "", .newTest, .mockGlobal, .crashOnFailure false,
+   .mockScope "drv", .fail]
+
+example : (Rep.runC {} reporterScenario).events = [.crash, .exit .longjmp, .exit .longjmp] ∧
+    (Rep.runX {} reporterScenario).events = [.crash, .exit .exception, .exit .exception] := by decide +kernel
+
+/-- what the seeded change `mock_scope_c: mock(scope)` (reporter argument dropped) does in the model: the scope gets the
+    standard reporter, whose flag the C table never set — the crash hook is not called and the call is left by an exception -/
+example : (Rep.stepCWith { Rep.Req.tables with calls := [⟨"mock_c", "\"\"", some "&failureReporterForC"⟩, ⟨"mock_scope_c", "scope", none⟩] }
+    (Rep.stepCWith Rep.Req.tables (Rep.stepCWith Rep.Req.tables {} .mockGlobal) (.crashOnFailure true)) (.mockScope "drv")).cur
+    = some ("drv", .std) := by decide +kernel
 
 end MockC
